@@ -182,6 +182,9 @@ func (e *Encoder) writeValue(val reflect.Value, tagType byte) error {
 		} else {
 			str = []byte(val.String())
 		}
+		if len(str) > math.MaxInt16 {
+			return fmt.Errorf("string too long: %d bytes, at most %d can be encoded", len(str), math.MaxInt16)
+		}
 		if err := writeInt16(e.w, int16(len(str))); err != nil {
 			return err
 		}
@@ -355,6 +358,9 @@ func getTagTypeByType(vk reflect.Type) byte {
 }
 
 func writeTag(w io.Writer, tagType byte, tagName string) error {
+	if len(tagName) > math.MaxInt16 {
+		return fmt.Errorf("tag name too long: %d bytes, at most %d can be encoded", len(tagName), math.MaxInt16)
+	}
 	if _, err := w.Write([]byte{tagType}); err != nil {
 		return err
 	}
